@@ -221,8 +221,11 @@ def run_unit(unit, variant=None):
     res.gen_path = gen_path
     gen_text = open(gen_path).read()
     res.trusted = scan_trusted(gen_text)
-    cmd, rc, out, err, wall = run_verus(gen_path)
-    res.cmd = ' '.join(cmd[:8]) + ' <--extern real http/url/... rlibs>'
+    extra = []
+    for m in re.finditer(r'//@@ verus-args (.*)', open(os.path.join(VERIF, 'units', unit + '.rs')).read()):
+        extra += m.group(1).split()
+    cmd, rc, out, err, wall = run_verus(gen_path, extra=extra)
+    res.cmd = ' '.join(cmd[:8] + extra) + ' <--extern real http/url/... rlibs>'
     res.raw_stderr = err
     res.wall_s = time.time() - t0
     if rc is None:
@@ -321,7 +324,10 @@ def vacuity_run(unit):
         out.insert(ln, '    proof { assert(false); } // vp:vacuity %s' % key)
     vpath = os.path.join(VERIF, 'gen', unit + '_vacuity.rs')
     open(vpath, 'w').write('\n'.join(out))
-    cmd, rc, so, se, wall = run_verus(vpath)
+    extra = []
+    for m in re.finditer(r'//@@ verus-args (.*)', open(os.path.join(VERIF, 'units', unit + '.rs')).read()):
+        extra += m.group(1).split()
+    cmd, rc, so, se, wall = run_verus(vpath, extra=extra)
     failed_at = set()
     text = '\n'.join(out).split('\n')
     for d in parse_diags(se):
